@@ -138,6 +138,34 @@ def replay_back(dreye, st, s, nexc, bad, where0):
                     bad.append(("C07.poisson-optimum", dict(nfree=len(r["F"]), **w), q.tolist(), pred.tolist(), r))
         except Exception as ex:
             bad.append(("C07.no-error", dict(exc=type(ex).__name__, **w), None, repr(ex)[:200], None))
+    # per-sample weights registered with the targets, in- and out-of-gamut rows interleaved in one call: every
+    # certified row must be fitted with the weights of its own row
+    rw = [r for r in recs if any(v != 1 for v in r["w"])][:1]
+    r1 = [r for r in recs if all(v == 1 for v in r["w"])][:1]
+    ins = [r for r in sorted(st["recs"], key=lambda r: r["b"]) if r["cls"] == "interior"][:2]
+    if rw and r1 and len(ins) == 2:
+        d = A.shape[0]
+        Bm = np.array([dsys.b_float(s, ins[0]["b"]), [a / b for a, b in zip(rw[0]["pbn"], rw[0]["pbd"])],
+                       dsys.b_float(s, ins[1]["b"]), [a / b for a, b in zip(r1[0]["pbn"], r1[0]["pbd"])]])
+        Wm = np.array([np.ones(d), np.asarray(rw[0]["w"], float), np.ones(d), np.ones(d)])
+        w = dict(model="poisson", back=True, weights="per-sample", **where0)
+        try:
+            est = dsys.make_estimator(dreye, s)
+            est.register_targets(Bm.copy(), Wm.copy())
+            est.fit(model="poisson")
+            nfit += 4
+            Xm = np.asarray(est.X, float)
+            for k, r in ((1, rw[0]), (3, r1[0])):
+                q = np.asarray(r["q"], float) / S
+                pred = Kmat @ (A @ Xm[k] + blv)
+                if np.max(np.abs(pred - q)) > TOL_BACK_P:
+                    bad.append(("C07.poisson-optimum", dict(row=k, **w), q.tolist(), pred.tolist(), r))
+            for k, r in ((0, ins[0]), (2, ins[1])):
+                pred = Kmat @ (A @ Xm[k] + blv)
+                if np.max(np.abs(pred - Bm[k])) > TOL:
+                    bad.append(("C07.in-gamut-reproduced", dict(row=k, **w), Bm[k].tolist(), pred.tolist(), r))
+        except Exception as ex:
+            bad.append(("C07.no-error", dict(exc=type(ex).__name__, **w), None, repr(ex)[:200], None))
     rs = [r for r in recs if all(v == 1 for v in r["w"])]
     rs = rs[:: max(1, len(rs) // max(1, nexc))][:nexc]
     if rs:
